@@ -27,7 +27,7 @@ def make_scn(rng, real):
     big = real and rng.random() < 0.06
     scn = gen_dag_scenario(rng, backend=backend, shape=('wide' if big else shape), nmax=(18 if big else rng.choice([6, 9, 12])),
                            types=LIMITED, precache=rng.random() < 0.3, failing=(backend != 'serial' and rng.random() < 0.3),
-                           fail_kinds=('kill', 'exit', 'raise:ValueError'), fresh=False,
+                           fail_kinds=('kill', 'exit', 'exit0', 'raise:ValueError'), fresh=(rng.random() < 0.4),
                            workers=((None,) if big else (1, 2, 3, None)))
     if big:
         scn['max_workers'] = None
